@@ -79,6 +79,42 @@ fn main() {
         print_stat(&format!("conv {} stat_of_attr", pi), &st2);
         let a2 = Attr::with_flags(st2, a.flags);
         print_attr(&format!("conv {} attr_roundtrip", pi), &a2);
+        // twin entry points of the attribute conversion: From<stat64> for Attr (GETATTR / SETATTR replies) and
+        // From<Entry> for EntryOut (LOOKUP / CREATE / MKNOD / READDIRPLUS ... replies)
+        let a3: Attr = st.into();
+        print_attr(&format!("conv {} attr_from_stat", pi), &a3);
+        {
+            use fuse_backend_rs::api::filesystem::Entry;
+            use std::time::Duration;
+            let e = Entry {
+                inode: vals[1].1 ^ 0x5a5a,
+                generation: vals[2].1 ^ 0xa5a5,
+                attr: st,
+                attr_flags: 0xabcd_0000 + pi as u32,
+                attr_timeout: Duration::new(vals[3].1 ^ 0x33, (vals[4].1 % 1_000_000_000) as u32),
+                entry_timeout: Duration::new(vals[5].1 ^ 0x77, (vals[6].1 % 999_999_937) as u32),
+            };
+            println!("conv {} entry_in inode={} generation={} attr_flags={} attr_timeout.secs={} attr_timeout.nsec={} entry_timeout.secs={} entry_timeout.nsec={}", pi,
+                e.inode, e.generation, e.attr_flags, e.attr_timeout.as_secs(), e.attr_timeout.subsec_nanos(), e.entry_timeout.as_secs(), e.entry_timeout.subsec_nanos());
+            let o: EntryOut = e.into();
+            println!("conv {} entry_out nodeid={} generation={} entry_valid={} attr_valid={} entry_valid_nsec={} attr_valid_nsec={}", pi,
+                o.nodeid, o.generation, o.entry_valid, o.attr_valid, o.entry_valid_nsec, o.attr_valid_nsec);
+            print_attr(&format!("conv {} entry_out_attr", pi), &o.attr);
+        }
+        // the remaining From impls of the ABI files: FileLock both ways, Context from InHeader
+        {
+            use fuse_backend_rs::api::filesystem::{Context, FileLock as ApiLock};
+            let w = FileLock { start: vals[0].1, end: vals[1].1, type_: vals[9].1 as u32, pid: vals[11].1 as u32 };
+            let l: ApiLock = w.into();
+            let w2: FileLock = l.into();
+            println!("conv {} filelock in_start={} in_end={} in_type={} in_pid={} start={} end={} lock_type={} pid={} back_start={} back_end={} back_type={} back_pid={}", pi,
+                w.start, w.end, w.type_, w.pid, l.start, l.end, l.lock_type, l.pid, w2.start, w2.end, w2.type_, w2.pid);
+            let mut h: InHeader = unsafe { zeroed() };
+            h.uid = vals[11].1 as u32; h.gid = vals[12].1 as u32; h.pid = vals[13].1 as u32;
+            h.len = 40; h.opcode = 3; h.unique = vals[0].1; h.nodeid = vals[1].1;
+            let c = Context::from(&h);
+            println!("conv {} context in_uid={} in_gid={} in_pid={} uid={} gid={} pid={}", pi, h.uid, h.gid, h.pid, c.uid as u64, c.gid as u64, c.pid as u32 as u64);
+        }
         // SetattrIn -> stat64
         let mut s: SetattrIn = unsafe { zeroed() };
         s.mode = a.mode; s.uid = a.uid; s.gid = a.gid; s.size = a.size; s.atime = a.atime; s.mtime = a.mtime;
